@@ -329,14 +329,16 @@ static void run_queries(const char *queries, struct reftable_reader *rd, struct 
 		die("cannot open queries");
 	while (getline(&line, &cap, f) > 0) {
 		char *tok[MAXTOK];
-		char copy[4096];
+		char *copy = strdup(line); /* names can be thousands of bytes long */
 		int n, err = 0;
 		struct reftable_iterator it = { 0 };
-		snprintf(copy, sizeof(copy), "%s", line);
 		n = split(line, tok);
-		if (n == 0)
+		if (n == 0) {
+			free(copy);
 			continue;
+		}
 		printf("# %s", copy);
+		free(copy);
 		if (!strcmp(tok[0], "scanrefs") || !strcmp(tok[0], "seekref")) {
 			char *name = n > 1 ? unhex(tok[1], NULL) : calloc(1, 1);
 			long limit = strcmp(tok[0], "scanrefs") ? 3 : -1;
